@@ -276,6 +276,7 @@ type options struct {
 	workers                    int
 	keep                       bool
 	all                        bool
+	scratch bool
 }
 
 func parseOpts(args []string) *options {
@@ -290,6 +291,7 @@ func parseOpts(args []string) *options {
 	fs.IntVar(&o.workers, "workers", runtime.NumCPU(), "parallel solver processes")
 	fs.BoolVar(&o.keep, "keep", false, "keep scripts of failed obligations under verif/out")
 	fs.BoolVar(&o.all, "all", false, "all properties")
+	fs.BoolVar(&o.scratch, "scratch", false, "corpus run on a scratch copy: write neither evidence nor replay files under verif")
 	fs.Parse(args)
 	if t := os.Getenv("VERIF_TIER"); t != "" && o.tier == "" {
 		o.tier = t
